@@ -170,6 +170,9 @@ type cmsCfg struct {
 func (g *Gen) cmsDims() cmsCfg {
 	rows := g.Pick(1, 1, 2, 3, 4, 5, 7)
 	cols := g.Pick(1, 1, 2, 3, 5, 8, 16, 64, 257, 1000)
+	if g.Small {
+		cols = g.Pick(1, 2, 3, 5, 8)
+	}
 	return cmsCfg{rows, cols}
 }
 
